@@ -110,9 +110,13 @@ theorem final_flush_terminates (ch cs : List Nat)
 theorem stale_read_loop_bounded : staleReadLoopBound = STALE_READ_RETRY_LIMIT ∧ staleReadLoopBound ≤ 16 := by decide
 
 /-! ### non-vacuity -/
-/-- the loop can really go the whole distance: 1023 retryable errors in a row keep it running -/
-example : (Loops.survive 4 finalFlushArms [4, 1, 4] (List.replicate finalFlushCounters.length 0)).isSome = true := by decide
-example : (Loops.survive 4 finalFlushArms [4, 1, 4, 1] (List.replicate finalFlushCounters.length 0)).isSome = false := by decide
+/-- the loop can really go the whole distance: `LIMIT − 1` rounds through a retrying arm (whichever
+the translator lists first, so that the example does not depend on the arms' order) keep it
+running, one more leaves it — shown with the limit 4 -/
+def firstRetryingArm : Nat := finalFlushArms.findIdx (fun a => !a.exits)
+example : firstRetryingArm < finalFlushArms.length := by decide
+example : (Loops.survive 4 finalFlushArms (List.replicate 3 firstRetryingArm) (List.replicate finalFlushCounters.length 0)).isSome = true := by decide
+example : (Loops.survive 4 finalFlushArms (List.replicate 4 firstRetryingArm) (List.replicate finalFlushCounters.length 0)).isSome = false := by decide
 example : Chain [.retireFlush, .disk, .freeSpace] :=
   ⟨⟨"flush_pending_deletions -> process_deletions", by decide⟩,
    ⟨"process_write_batch -> failed_batch_outcome", by decide⟩, trivial⟩
